@@ -1,6 +1,7 @@
 package ocigen
 
 import (
+	"encoding/json"
 	"math"
 	"os"
 	"strings"
@@ -588,6 +589,37 @@ func genC13(t *rapid.T) C13Case {
 	// a history: zero to two further (smaller) adjustments on the same generator and spec
 	for i, n := 0, pick(t, "more_steps", 0, 0, 0, 1, 1, 2); i < n; i++ {
 		c.More = append(c.More, genAdj(t, pool, 3, ks))
+	}
+	// Failed calls: in a quarter of the cases one step is preceded by a FAILING attempt of the
+	// same adjustment (it carries a token that makes a callback of the generator fail: an
+	// unresolvable CDI device, an unknown block-I/O or RDT class, an annotation the filter
+	// rejects), so that the step itself is the retry on the same generator; now and then a
+	// failing step stands alone at a drawn position.
+	if chance(t, "failed_attempt", 1, 4) {
+		steps := append([]Adj{c.Adj}, c.More...)
+		i := rapid.IntRange(0, len(steps)-1).Draw(t, "failing_before")
+		var failing Adj
+		if chance(t, "failing_is_retry_twin", 3, 4) {
+			b, _ := json.Marshal(&steps[i])
+			_ = json.Unmarshal(b, &failing)
+		} else {
+			failing = genAdj(t, pool, 4, ks)
+		}
+		switch pick(t, "failing_callback", "cdi", "blockio", "rdt", "annotation_filter") {
+		case "cdi":
+			failing.CDI = append(failing.CDI, failCDIName)
+		case "blockio":
+			failing.BlockIOClass = ptrOf(failClass)
+		case "rdt":
+			failing.RdtClass = ptrOf(failClass)
+		default:
+			if failing.Annotations == nil {
+				failing.Annotations = map[string]string{}
+			}
+			failing.Annotations[failAnnotation] = "x"
+		}
+		steps = append(steps[:i], append([]Adj{failing}, steps[i:]...)...)
+		c.Adj, c.More = steps[0], steps[1:]
 	}
 	// the CDI injector callback edits the spec like a real one in half of the cases
 	if chance(t, "injector_edits", 1, 2) {
